@@ -165,6 +165,8 @@ def run(rep, wd, tier, seed):
     touts = isocheck.threaded('harness.c11', '_drive', tj, procs=2)
     isocheck.mark_threaded([touts])
     traces += touts
+    lj = [(j[0], 200000 + j[1], j[2], j[3], False) for j in jobs[1:: max(1, len(jobs) // 80)]]
+    traces += isocheck.lockstep('harness.c11', '_drive', lj, procs=4)
     rep.sample({'behaviour': traces[0]['_desc']})
     rep.sample({'behaviour': traces[-1]['_desc']})
     batches = core.split(traces, core.NCPU)
